@@ -149,7 +149,7 @@ func sysSw(id string, variant int) []*system.Rule {
 	return append(rs, block)
 }
 
-var outlierN int64
+var outlierN, freshN int64
 
 // The switched resource always carries exactly one block-everything rule (id "1" or "2") among inert
 // rules whose number, position and statistic parameters vary from load to load, so that rule re-use,
@@ -291,7 +291,11 @@ func TestRaceAndAtomicSwitch(t *testing.T) {
 						if i%2 == 0 {
 							opts = append(opts, sentinel.WithTrafficType(base.Inbound))
 						}
-						e, b := sentinel.Entry(fmt.Sprint("t", (i+g)%3), opts...)
+						resName := fmt.Sprint("t", (i+g)%3)
+						if i%7 == 3 { // a resource name nobody has used yet: its statistic node is created while readers list the nodes
+							resName = fmt.Sprint("fresh-", atomic.AddInt64(&freshN, 1))
+						}
+						e, b := sentinel.Entry(resName, opts...)
 						if b == nil {
 							if i%5 == 0 {
 								sentinel.TraceError(e, bizErr)
